@@ -417,6 +417,22 @@ def source_array(rate, n, ch, first):
     )
 
 
+def axis_snapshot(a):
+    return ([float(v) for v in a.coords["time"].data], dict(a.coords["time"].attrs), a.data.tobytes())
+
+
+def source_axis_check(out, fn, a, before):
+    """The source array handed to a producer is itself an 'array produced by' an earlier producer: after the call its axis
+    must still tell the truth (coordinates, advertised step and data unchanged)."""
+    after = axis_snapshot(a)
+    same = before == after
+    what = None
+    if not same:
+        what = "coords" if before[0] != after[0] else ("attrs" if before[1] != after[1] else "data")
+    out.expect("source_axis_unchanged", same, {"changed": what, "before_attrs": before[1], "after_attrs": after[1]},
+               "the input array is not modified", {"fn": fn, "axis": "time", "kind": "input_mutated:%s" % what})
+
+
 def run_resample(case):
     out = Out(case)
     src, tgt, n, ch, first = case["src"], case["tgt"], case["n"], case["ch"], case["first"]
@@ -429,7 +445,9 @@ def run_resample(case):
         return out
     q = F(n * tgt, src)
     in_domain = n >= 2 and q >= 1
+    before = axis_snapshot(a)
     st, r = call(audio.resample, a, tgt)
+    source_axis_check(out, fn, a, before)
     if st != "ok":
         out.klass = "resample/%s/%s" % ("in_domain" if in_domain else ("len1" if n < 2 else "empty_target"), st)
         if not in_domain:
@@ -464,7 +482,9 @@ def run_spectrogram(case):
         out.klass = "spectrogram/nosource"
         return out
     window_s, hop_s = float(w / rate), float(h / rate)
+    before = axis_snapshot(a)
     st, r = call(audio.compute_spectrogram, a, window_s, hop_s)
+    source_axis_check(out, fn, a, before)
     hk = "frac" if h.denominator != 1 else "whole"
     wk = "frac" if w.denominator != 1 else "whole"
     out.klass = "spectrogram/w_%s/h_%s/%s" % (wk, hk, st)
